@@ -83,8 +83,8 @@ CHECKS = {
    level="model_checking",
    text="Kernel: the real filterAnalyzerNames (lists of 1-2, thorough 3, tokens from 21), config.mergeConfigs / Config.Merge / mergeLists / normalizeList (default + 2-3 staticcheck.conf levels + -checks, with inherit) and "
         "Command.printDiagnostics with list.Set and the text formatter (2 problems x -fail lists x text|null|sarif) are executed symbolically and compared with an independent left-to-right evaluator of the documented algebra and exit rule; "
-        "the result loop of the real (*linter).lint with the runner stubbed (2-3 results, failed / initial / skipped symbolic): errors of failed packages are reported whether or not the package was named, problems come from exactly the analysed packages.",
-   note="Finite vocabulary explored exhaustively by forking. Outside: directory walk and TOML decoding (parseConfigs), rendering of stylish/JSON/SARIF (sarifFormatter.Format has an empty body in the symbolic run), -show-ignored.",
+        "the result loop of the real (*linter).lint with the runner stubbed (2-3 results, failed / initial / skipped symbolic): errors of failed packages are reported whether or not the package was named, problems come from exactly the analysed packages; text and stylish formatters print the same problems (2-3 problems with and without positions).",
+   note="Finite vocabulary explored exhaustively by forking. Outside: directory walk and TOML decoding (parseConfigs), rendering of JSON/SARIF (encoding/json is outside the engine's reflect model; sarifFormatter.Format has an empty body in the symbolic run), the byte layout of stylish output, -show-ignored.",
    technique="bounded symbolic execution of go/ssa + SMT feasibility, native replay of models",
    design="3/C11"),
  "C02": dict(
